@@ -20,6 +20,8 @@ rds.register(globals(), {"C09", "C11"}, ["redis_chain", "redis_name_reused"])
 ASSUMPTIONS = ASSUMPTIONS + [
     "redis_* conditions: the engine's stores are the real RedisDictStore/RedisListStore over vf.fake_redis (one connection per process, tracker thread not run: cache invalidation messages are delivered by the harness before each read, or left pending); after every scheduling step DescribeExecution, GetExecutionHistory and ListExecutions are answered by the real REST handlers (asyncio / blocking front end) of the engine's own process or of a second process with its own connection, and compared with the execution's latest notification",
 ]
+more.register(globals(), {"C09"}, ["branch_retry_kinds", "late_nested"], {"branch_retry_kinds": [("_ok", "not bfail"), ("_fail", "bfail")], "late_nested": [("_ok", "not bfail"), ("_fail", "bfail")]})
+
 
 # ---------------------------------------------------------------------------
 # One-step kernels (Engine A)
